@@ -571,3 +571,172 @@ Section Refinement.
   Corollary queue_refines_spec ops : q_run bk (q_init bk) ops = spec_run [] ops.
   Proof. apply run_refines. exact Inv_init. Qed.
 End Refinement.
+
+(* ------------------------------------------------------------------------ *)
+(* heapq by contract is a lawful back end                                    *)
+(* ------------------------------------------------------------------------ *)
+Lemma least_spec : forall r x,
+  NoDup (map e_cnt (x :: r)) ->
+  In (least x r) (x :: r) /\
+  (forall y, In y (x :: r) -> y = least x r \/ entry_ltb (least x r) y = true).
+Proof.
+  induction r as [|a r IH]; intros x ND.
+  - simpl. split; [now left|]. intros y [E|[]]. now left.
+  - simpl least. set (x' := if entry_ltb a x then a else x).
+    assert (Hxa : e_cnt x <> e_cnt a).
+    { simpl in ND. inversion ND as [|? ? H _]; subst. intro E. apply H. left. now symmetry. }
+    assert (ND' : NoDup (map e_cnt (x' :: r))).
+    { simpl in ND. inversion ND as [|? ? H1 ND1]; subst. inversion ND1 as [|? ? H2 ND2]; subst.
+      simpl. unfold x'. destruct (entry_ltb a x); constructor; auto.
+      intro H. apply H1. now right. }
+    destruct (IH x' ND') as [Hin Hmin].
+    assert (Hother : forall y, (y = x \/ y = a) -> y = x' \/ entry_ltb x' y = true).
+    { intros y [E|E]; subst y; unfold x'; destruct (entry_ltb a x) eqn:L; auto.
+      right. destruct (entry_ltb_total x a Hxa) as [T|T]; [exact T|congruence]. }
+    split.
+    + destruct Hin as [E|Hin]; [|right; right; exact Hin].
+      rewrite <- E. unfold x'. destruct (entry_ltb a x); [right; left|left]; reflexivity.
+    + intros y Hy.
+      assert (Hc : (y = x \/ y = a) \/ In y r).
+      { destruct Hy as [E|[E|Hy]]; [left; left|left; right|right]; auto. }
+      destruct Hc as [Hc|Hc].
+      * destruct (Hother y Hc) as [E|L].
+        -- subst y. apply Hmin. now left.
+        -- destruct (Hmin x' (or_introl eq_refl)) as [E|L'].
+           ++ right. now rewrite <- E.
+           ++ right. eapply entry_ltb_trans; eauto.
+      * apply Hmin. now right.
+Qed.
+
+Lemma remove_cnt_perm : forall h m,
+  NoDup (map e_cnt h) -> In m h -> Permutation h (m :: remove_cnt (e_cnt m) h).
+Proof.
+  induction h as [|x r IH]; intros m ND Hin; [destruct Hin|].
+  simpl in ND. inversion ND as [|? ? Hx ND']; subst. simpl.
+  destruct Hin as [E|Hin].
+  - subst m. rewrite Nat.eqb_refl. apply Permutation_refl.
+  - destruct (Nat.eqb_spec (e_cnt x) (e_cnt m)) as [E|N].
+    + exfalso. apply Hx. rewrite E. now apply in_map.
+    + eapply Permutation_trans; [apply perm_skip; apply (IH m ND' Hin)|]. apply perm_swap.
+Qed.
+
+Theorem heap_refines_spec ops :
+  q_run heap_backend (q_init heap_backend) ops = spec_run [] ops.
+Proof.
+  apply (queue_refines_spec heap_backend (fun h => h) (fun _ => True)).
+  - split; [exact I|reflexivity].
+  - intros b _. destruct b; reflexivity.
+  - intros b _. reflexivity.
+  - intros b e _ _. exists (b ++ [e]). split; [reflexivity|]. split; [exact I|].
+    apply Permutation_sym, Permutation_cons_append.
+  - intros b _ ND Hne. destruct b as [|x r]; [congruence|]. simpl in *.
+    destruct (least_spec r x ND) as [Hin Hmin].
+    exists (least x r), (remove_cnt (e_cnt (least x r)) (x :: r)).
+    split; [reflexivity|]. split; [reflexivity|]. split; [exact I|].
+    pose proof (remove_cnt_perm (x :: r) (least x r) ND Hin) as Pm.
+    split; [exact Pm|].
+    intros e' He'.
+    assert (In e' (x :: r)) by (apply (Permutation_in _ (Permutation_sym Pm)); now right).
+    destruct (Hmin e' H) as [E|L]; [|exact L].
+    exfalso. subst e'.
+    assert (NDp : NoDup (map e_cnt (least x r :: remove_cnt (e_cnt (least x r)) (x :: r)))).
+    { eapply Permutation_NoDup; [apply Permutation_map; exact Pm|exact ND]. }
+    inversion NDp as [|? ? Hn _]; subst. apply Hn. now apply in_map.
+  - intros b c _. split; [exact I|reflexivity].
+Qed.
+
+(* ------------------------------------------------------------------------ *)
+(* the sorted BarrelList is a lawful back end, for every size limit           *)
+(* ------------------------------------------------------------------------ *)
+Definition elt (x y : entry) : Prop := entry_ltb x y = true.
+
+Lemma StronglySorted_nth {X} (R : X -> X -> Prop) (l : list X) :
+  StronglySorted R l -> forall j1 j2 a b, j1 < j2 ->
+  nth_error l j1 = Some a -> nth_error l j2 = Some b -> R a b.
+Proof.
+  induction 1 as [|x r S IH F]; intros j1 j2 a b Hlt E1 E2.
+  - destruct j1; discriminate.
+  - destruct j2 as [|j2]; [lia|]. destruct j1 as [|j1]; simpl in *.
+    + inversion E1; subst. rewrite Forall_forall in F. apply F. eapply nth_error_In; eauto.
+    + eapply IH; [|eauto|eauto]. lia.
+Qed.
+
+Lemma StronglySorted_insert {X} (R : X -> X -> Prop) (l1 l2 : list X) (x : X) :
+  StronglySorted R (l1 ++ l2) ->
+  (forall y, In y l1 -> R y x) -> (forall y, In y l2 -> R x y) ->
+  StronglySorted R (l1 ++ x :: l2).
+Proof.
+  induction l1 as [|a r IH]; simpl; intros S H1 H2.
+  - constructor; [exact S|]. apply Forall_forall. exact H2.
+  - inversion S as [|? ? S' F]; subst. constructor.
+    + apply IH; auto.
+    + rewrite Forall_forall in *. intros y Hy. apply in_app_iff in Hy as [Hy|[Hy|Hy]].
+      * apply F. apply in_app_iff. now left.
+      * subst y. apply H1. now left.
+      * apply F. apply in_app_iff. now right.
+Qed.
+
+Lemma StronglySorted_map {X Y} (R : X -> X -> Prop) (R' : Y -> Y -> Prop) (f : X -> Y) (l : list X) :
+  (forall a b, R a b -> R' (f a) (f b)) -> StronglySorted R l -> StronglySorted R' (map f l).
+Proof.
+  intros Hf. induction 1 as [|x r S IH F]; simpl; constructor; [exact IH|].
+  rewrite Forall_forall in *. intros y Hy. apply in_map_iff in Hy as (z & <- & Hz). auto.
+Qed.
+
+Definition sorted_wf (b : barrel (A := entry)) : Prop :=
+  b <> [] /\ StronglySorted elt (concat b).
+
+Lemma sorted_step_on (l : list entry) (x : entry) :
+  StronglySorted elt l -> step_on entry_ltb x l.
+Proof.
+  intros S j1 j2 y1 y2 Hle E1 E2 L.
+  destruct (Nat.eq_dec j1 j2) as [->|N]; [congruence|].
+  assert (elt y1 y2) by (eapply (StronglySorted_nth elt l S j1 j2); eauto; lia).
+  eapply entry_ltb_trans; eauto.
+Qed.
+
+Theorem sorted_refines_spec (limit : nat -> nat) ops :
+  q_run (sorted_backend limit) (q_init (sorted_backend limit)) ops = spec_run [] ops.
+Proof.
+  apply (queue_refines_spec (sorted_backend limit) (fun b => concat b) sorted_wf).
+  - split; [split; [discriminate|constructor]|reflexivity].
+  - intros b _. simpl. rewrite bl_len_concat. destruct (concat b); reflexivity.
+  - intros b _. simpl. apply bl_len_concat.
+  - intros b e [Hne S] Hfresh. simpl.
+    destruct (bl_insort_flat limit entry_ltb b e Hne (sorted_step_on _ e S))
+      as (r & b' & E & Hne' & F & Hr & Hlo & Hup).
+    exists b'. split; [exact E|].
+    unfold sorted_wf. rewrite F. unfold list_insert. split; [split; [exact Hne'|]|].
+    + apply StronglySorted_insert.
+      * rewrite firstn_skipn. exact S.
+      * intros y Hy. pose proof (Hlo y Hy) as L.
+        assert (Hc : e_cnt e <> e_cnt y).
+        { intro Ec. apply Hfresh. rewrite Ec. apply in_map.
+          rewrite <- (firstn_skipn r (concat b)). apply in_app_iff. now left. }
+        destruct (entry_ltb_total e y Hc) as [T|T]; [congruence|exact T].
+      * intros y Hy. exact (Hup y Hy).
+    + rewrite <- (firstn_skipn r (concat b)) at 3. apply Permutation_sym, Permutation_middle.
+  - intros b [Hne S] ND Hne2. simpl.
+    destruct (concat b) as [|e rest] eqn:Ec; [congruence|].
+    exists e.
+    pose proof (bl_pop_flat limit b 0 Hne) as P. rewrite Ec in P. simpl in P.
+    destruct P as (b' & P1 & P2 & P3). exists b'.
+    split.
+    { change 0%Z with (Z.of_nat 0). rewrite (bl_get_flat b 0 Hne), Ec. reflexivity. }
+    split; [exact P1|].
+    unfold list_remove in P2. simpl in P2. rewrite <- P2 in S.
+    inversion S as [|? ? S' F].
+    split; [split; [exact P3|exact S']|].
+    rewrite P2. split; [apply Permutation_refl|].
+    rewrite <- P2. rewrite Forall_forall in F. exact F.
+  - intros b c [Hne S]. simpl. unfold sorted_wf. rewrite <- concat_map. split; [split|reflexivity].
+    + destruct b; [congruence|discriminate].
+    + apply (StronglySorted_map elt elt (tomb c)); [|exact S].
+      intros x y L. unfold elt. now rewrite entry_ltb_tomb.
+Qed.
+
+(* observational identity of the two classes *)
+Corollary heap_sorted_equiv (limit : nat -> nat) ops :
+  q_run heap_backend (q_init heap_backend) ops =
+  q_run (sorted_backend limit) (q_init (sorted_backend limit)) ops.
+Proof. now rewrite heap_refines_spec, sorted_refines_spec. Qed.
